@@ -39,11 +39,21 @@ def make_monitor(ctx):
 
 
 def verdict_vs_model(ctx, c):
+    """the exit status against `Model/Whole.wholeFailed` (the object of `C02_run_verdict`): parent and children
+    composed in Lean"""
     if any(e["ev"] == "die" for e in c.obs.events):
         return
+    q = dict(worlds.model_query(c.world, c.opts, c.groups, import_errors=c.import_errors), op="whole", lost=[])
+    ans = ctx.driver.batch([q])[0]
+    if "error" in ans:
+        ctx.drift("runner.verdict", "driver error %s" % ans["error"], c.replay_obj())
+        return
     ran, nf, ne, sk, failed = cw.model_totals(c)
-    if (c.obs.exit == 1) != bool(failed):
-        ctx.drift("runner.verdict", "exit status %r, model failed=%r" % (c.obs.exit, failed), c.replay_obj())
+    if bool(ans["failed"]) != bool(failed):
+        ctx.drift("runner.whole", "Model/Whole says failed=%r, the composition of the per-process models %r"
+                  % (ans["failed"], failed), c.replay_obj())
+    elif (c.obs.exit == 1) != bool(ans["failed"]):
+        ctx.drift("runner.verdict", "exit status %r, model failed=%r" % (c.obs.exit, ans["failed"]), c.replay_obj())
 
 
 def gen_cases(ctx):
